@@ -10,7 +10,7 @@ from typing import Optional
 from vf.engine import Ctx, Failure
 from vf.harness.common import bounds_of, get_aliaser, method_classes, self_of, tree_state
 from vf.oracle.deser import Opts, RefDeser, classify, message_kinds
-from vf.specs import F, Sp, build, obj, opt, static_alias
+from vf.specs import F, Sp, build, mp, obj, opt, static_alias
 from vf.pools import INT, STR, V, Fy
 
 HEADER = "LOG = []\nfrom apischema.objects import get_alias\n"
@@ -54,7 +54,7 @@ PROGRAMS = {
         + vsrc("v1", "self.double > 4", "yield", path="get_alias(self).b")
         + vsrc("v2", "self.a == self.b"),
         [
-            dict(name="v1", deps={"b"}, fail=lambda v: v["b"] * 2 > 4, errs=[(("B",), "v1")]),
+            dict(name="v1", deps={"b"}, fail=lambda v: v["b"] * 2 > 4, errs=[(("@b",), "v1")]),
             dict(name="v2", deps={"a", "b"}, fail=lambda v: v["a"] == v["b"], errs=[((), "v2")]),
         ],
     ),
@@ -72,7 +72,7 @@ PROGRAMS = {
             dict(name="v2", deps={"b"}, fail=lambda v: v["b"] < -3, errs=[((), "v2")]),
             dict(name="v3", deps={"a"}, fail=lambda v: v["a"] > 3, errs=[((), "v3")]),
             dict(name="v4", deps={"a"}, field="a", discard={"a"}, fail=lambda v: v["a"] < -3, errs=[(("a",), "v4")]),
-            dict(name="v5", deps={"a"}, fail=lambda v: v["a"] == 7, errs=[(("bb",), "v5")]),
+            dict(name="v5", deps={"a"}, fail=lambda v: v["a"] == 7, errs=[(("@b",), "v5")]),
         ],
     ),
     # explicit discard of a field the failing validator does not read
@@ -136,9 +136,31 @@ PROGRAMS = {
         + vsrc("m3", "self.c > 3", "yield", path="'xs'"),
         [
             dict(name="m1", deps={"a"}, fail=lambda v: v["a"] > 2,
-                 errs=[(("xs", 0), "m1"), (("xs", 2), "m1b"), ((), "m1c"), (("B",), "m1d"), (("B", "k"), "m1e")]),
+                 errs=[(("xs", 0), "m1"), (("xs", 2), "m1b"), ((), "m1c"), (("@b",), "m1d"), (("@b", "k"), "m1e")]),
             dict(name="m2", deps={"c"}, fail=lambda v: v["c"] > 2, errs=[(("xs", 0), "m2")]),
             dict(name="m3", deps={"c"}, fail=lambda v: v["c"] > 3, errs=[(("xs",), "m3")]),
+        ],
+    ),
+    # aggregate fields (pattern properties with a root-level constraint, flattened object) read
+    # by class validators: an invalid aggregate is an invalid input of the validator
+    "aggr": prog(
+        "Vg",
+        [
+            F("p", mp(INT), properties="^p", schema=(("min_props", 1),)),
+            F("inner", obj("Vin", F("u", INT), F("v", INT, default=V("0"))), flatten=True),
+            F("a", INT, default=V("0")),
+        ],
+        vsrc("g1", "len(self.p) > 1", "yield")
+        + vsrc("g2", "self.inner.u > 5")
+        + vsrc("g3", "self.a > 3", "yield", path="get_alias(self).a")
+        + vsrc("g4", "self.a + len(self.p) > 5")
+        + vsrc("g5", "self.a + self.inner.v > 6"),
+        [
+            dict(name="g1", deps={"p"}, fail=lambda v: len(v["p"]) > 1, errs=[((), "g1")]),
+            dict(name="g2", deps={"inner"}, fail=lambda v: v["inner"]["u"] > 5, errs=[((), "g2")]),
+            dict(name="g3", deps={"a"}, fail=lambda v: v["a"] > 3, errs=[(("@a",), "g3")]),
+            dict(name="g4", deps={"a", "p"}, fail=lambda v: v["a"] + len(v["p"]) > 5, errs=[((), "g4")]),
+            dict(name="g5", deps={"a", "inner"}, fail=lambda v: v["a"] + v["inner"]["v"] > 6, errs=[((), "g5")]),
         ],
     ),
 }
@@ -191,16 +213,43 @@ class Inst:
         al = self.opts.aliaser
         ext = {f.name: al(static_alias(spec, f)) for f in spec.a}
         err_locs = {loc[0] for loc, _ in struct_errs if loc}
-        provided = {f.name for f in spec.a if ext[f.name] in d and ext[f.name] not in err_locs}
-        invalid = {f.name for f in spec.a if ext[f.name] in err_locs}
+        plain = [f for f in spec.a if not f.flatten and f.properties is None]
+        provided = {f.name for f in plain if ext[f.name] in d and ext[f.name] not in err_locs}
+        invalid = {f.name for f in plain if ext[f.name] in err_locs}
         values = {}
         from vf.specs import default_value
 
-        for f in spec.a:
+        for f in plain:
             if f.name in provided:
                 values[f.name] = d[ext[f.name]]
             elif f.has_default:
                 values[f.name] = default_value(self.prog, f)
+        # aggregate fields: always given; invalid as soon as one of their keys (or their
+        # root-level constraint) is
+        import re
+
+        declared = {ext[f.name] for f in plain}
+        for f in spec.a:
+            if f.flatten:
+                inner = f.sp
+                keys = {g.name: al(static_alias(inner, g)) for g in inner.a}
+                declared |= set(keys.values())
+        root_constraint = any(not loc and k.startswith("c:") for loc, k in struct_errs)
+        for f in spec.a:
+            if f.flatten:
+                keys = {g.name: al(static_alias(f.sp, g)) for g in f.sp.a}
+                if set(keys.values()) & err_locs:
+                    invalid.add(f.name)
+                else:
+                    provided.add(f.name)
+                    values[f.name] = {g.name: d[keys[g.name]] if keys[g.name] in d else default_value(self.prog, g) for g in f.sp.a if keys[g.name] in d or g.has_default}
+            elif f.properties is not None:
+                mine = [k for k in d if k not in declared and (f.properties is True or re.search(f.properties, k))]
+                if (set(mine) & err_locs) or (root_constraint and f.schema):
+                    invalid.add(f.name)
+                else:
+                    provided.add(f.name)
+                    values[f.name] = {k: d[k] for k in mine}
         todo = [v for v in self.P["validators"] if v["deps"] & provided]
         todo = [v for v in todo if not (v["deps"] & invalid)]
         log, errs = [], []
@@ -209,9 +258,9 @@ class Inst:
             log.append(v["name"])
             if v["fail"](values):
                 for loc, msg in v["errs"]:
-                    # aliases yielded through get_alias() are relocated to the external name
-                    static = {static_alias(spec, f) for f in spec.a if f.alias is not None}
-                    loc = tuple(al(x) if isinstance(x, str) and x in static else x for x in loc)
+                    # "@name": yielded through get_alias(self).name, relocated to the external name
+                    by_name = {f.name: f for f in spec.a}
+                    loc = tuple(al(static_alias(spec, by_name[x[1:]])) if isinstance(x, str) and x.startswith("@") else x for x in loc)
                     if v.get("field"):
                         loc = (ext[v["field"]],)
                     errs.append((loc, msg))
